@@ -16,6 +16,7 @@
 (*                 lists, several in a row                                 *)
 (*   "determinism" depth-limited searches only (C13)                       *)
 (*   "repetition"  games that shuffle back into earlier positions (C09)    *)
+(*   "pressure"    one game, deep searches, no ucinewgame: a large table    *)
 (***************************************************************************)
 EXTENDS Uci, Json, IOUtils
 
@@ -57,7 +58,10 @@ ClockOrders == {<<"wtime","btime","winc","binc">>, <<"btime","wtime","binc","win
 Clocks == {0, 1, 100, 4000, 5000, 5001, 5100, 6000, 10000}
 Incs == {0, 100, 3000}
 UnknownLines == {"", "   ", "xyzzy", "UCI", "Isready", "stop", "setoption name Hash value 16", "debug on", "ponderhit",
-                 "go2 depth 1", "position", "register later", "QUIT", "exit", "isready?", "bestmove e2e4"}
+                 "go2 depth 1", "position", "register later", "QUIT", "exit", "isready?", "bestmove e2e4",
+                 \* lines that are not valid UTF-8 (the runner turns \xNN into the raw byte), tabs, very long lines
+                 "foo \\xff\\xfe bar", "\\xc3\\x28", "caf\\xe9 isready", "\\x80uci", "\tisready?\t", "uci\\x00x",
+                 "xxxxxxxxxxxxxxxxxxxxxxxxxxxxxxxxxxxxxxxxxxxxxxxxxxxxxxxxxxxxxxxxxxxxxxxxxxxxxxxxxxxxxxxxxxxxxxxxxxxxxxxxxxxxxxxxxxxxxxxxxxxxxxxxxxxxxxxx"}
 
 (* ---------------- steps ---------------- *)
 Emit(rec) == last' = rec @@ [k |-> "C", n |-> n + 1, profile |-> Profile]
@@ -99,7 +103,8 @@ EmitGo(g) == Emit([kind |-> "go", text |-> GoText(g), go |-> [x \in DOMAIN g \ {
 CanonicalAnswer == <<[t |-> "bestmove", move |-> IF Legal(board) = {} THEN "0000" ELSE Uci(CHOOSE m \in Legal(board) : TRUE)]>>
 DoGo(g) == CmdGo(CanonicalAnswer) /\ EmitGo(g) /\ Step /\ UNCHANGED game
 NoOrder == <<>>
-GenGoDepth == DoGo(GoRec(RandomElement(IF Profile = "determinism" THEN 1..4 ELSE 1..3), -1, -1, -1, -1, -1, NoOrder))
+GenGoDepth == DoGo(GoRec(RandomElement(IF Profile = "determinism" THEN 1..4 ELSE IF Profile = "pressure" THEN {6, 7} ELSE 1..3),
+                        -1, -1, -1, -1, -1, NoOrder))
 GenGoMovetime == DoGo(GoRec(-1, RandomElement({0, 1, 5, 50}), -1, -1, -1, -1, NoOrder))
 GenGoDepthMovetime == DoGo(GoRec(RandomElement(1..6), RandomElement({0, 1, 5, 50}), -1, -1, -1, -1, NoOrder))
 GenGoClock == LET full == RandomElement({TRUE, TRUE, FALSE})
@@ -121,6 +126,38 @@ CycleFrom(p) ==
                      THEN <<m1, m2, BackOf(m1), BackOf(m2)>> ELSE <<>>
 GenPositionCycle == LET c == CycleFrom(board)
                     IN IF c = <<>> THEN GenPositionExtend ELSE SetGame([game EXCEPT !.ms = game.ms \o c])
+\* LOOK-ALIKE positions (same placement and side to move, different castling rights or en-passant square)
+\* are different positions: histories in which the look-alike has occurred, but the position itself
+\* fewer than twice.  (a) a rook / king that still carries a castling right steps out and back, twice;
+\* (b) a double pawn push (en-passant square set) followed by cycles that restore the placement.
+RightsMovers(p) ==
+  LET r == IF p.stm = "w" THEN 0 ELSE 7
+      ks == IF p.stm = "w" THEN "K" ELSE "k"   qs == IF p.stm = "w" THEN "Q" ELSE "q"
+      homes == (IF ks \in p.cr THEN {Sq(7, r), Sq(4, r)} ELSE {}) \cup (IF qs \in p.cr THEN {Sq(0, r), Sq(4, r)} ELSE {})
+  IN {m \in Reversible(p) : m.from \in homes}
+Prefer(a, b) == IF a # {} THEN a ELSE b
+RCycleFrom(p) ==
+  LET r1 == Prefer(RightsMovers(p), Reversible(p))
+  IN IF r1 = {} THEN <<>>
+     ELSE LET m1 == RandomElement(r1)  p1 == Apply(p, m1)  r2 == Prefer(RightsMovers(p1), Reversible(p1))
+          IN IF r2 = {} THEN <<>>
+             ELSE LET m2 == RandomElement(r2)  p2 == Apply(p1, m2)
+                  IN IF BackOf(m1) \in Legal(p2) /\ BackOf(m2) \in Legal(Apply(p2, BackOf(m1)))
+                     THEN <<m1, m2, BackOf(m1), BackOf(m2)>> ELSE <<>>
+CastleSeeds == {q \in SeedPos : Cardinality(q.cr) >= 2}
+\* the cycle twice, the second time without its last move: the next move would bring the look-alike
+\* about for the SECOND time only (and a further cycle for the third time)
+\* (values drawn with RandomElement are handed on as operator ARGUMENTS, which TLC evaluates once)
+TwiceButLast(c, k) == c \o SubSeq(c, 1, k)
+WithCycle(g0, c, pre) == IF c = <<>> THEN GenPositionExtend
+                         ELSE SetGame([g0 EXCEPT !.ms = g0.ms \o pre \o TwiceButLast(c, RandomElement({2, 3, 4}))])
+RCycleOn(g0, b0) == WithCycle(g0, RCycleFrom(b0), <<>>)
+RCycleSeed(q) == RCycleOn([sp |-> FALSE, start |-> q, hm |-> 0, fm |-> 1, ms |-> <<>>], q)
+GenPositionRCycle == IF board.cr = {} /\ CastleSeeds # {} THEN RCycleSeed(RandomElement(CastleSeeds)) ELSE RCycleOn(game, board)
+DoublePushes(q) == {m \in Legal(q) : Kind(q.bd[m.from]) = P /\ (m.to - m.from = 16 \/ m.from - m.to = 16)}
+EpCycleWith(m0) == WithCycle(game, CycleFrom(Apply(board, m0)), <<m0>>)
+GenPositionEpCycle == IF DoublePushes(board) = {} THEN GenPositionExtend ELSE EpCycleWith(RandomElement(DoublePushes(board)))
+
 \* the same game one ply shorter (only the most recent position command counts)
 GenPositionBack == IF game.ms = <<>> THEN GenPositionExtend
                    ELSE SetGame([game EXCEPT !.ms = SubSeq(game.ms, 1, Len(game.ms) - 1)])
@@ -136,11 +173,16 @@ Menu ==
                            "goclock", "isready">>
     [] Profile = "position" -> <<"fen", "fen", "startpos", "extend", "extend", "extend", "shuffle", "newgame", "godepth">>
     [] Profile = "determinism" -> <<"fen", "startpos", "extend", "extend", "godepth", "godepth", "godepth">>
+    \* one long game near the opening searched deeply after every few moves, never a ucinewgame: the table
+    \* grows to several hundred thousand entries (C13: whatever depends on the random hash keys - slot
+    \* collisions, replacement, eviction - shows only under this pressure)
+    [] Profile = "pressure" -> <<"extend", "godepth", "godepth">>
     [] Profile = "repetition" -> <<"startpos", "fen", "extend", "shuffle", "shuffle", "cycle", "cycle", "cycle", "cycle", "back",
-                                  "newgame">>
+                                  "newgame", "rcycle", "rcycle", "epcycle">>
 Do(w) == CASE w = "uci" -> GenUci [] w = "isready" -> GenIsReady [] w = "newgame" -> GenNewGame [] w = "unknown" -> GenUnknown
            [] w = "startpos" -> GenPositionStartpos [] w = "fen" -> GenPositionFen [] w = "extend" -> GenPositionExtend
            [] w = "shuffle" -> GenPositionShuffle [] w = "cycle" -> GenPositionCycle [] w = "back" -> GenPositionBack
+           [] w = "rcycle" -> GenPositionRCycle [] w = "epcycle" -> GenPositionEpCycle
            [] w = "godepth" -> GenGoDepth [] w = "gomovetime" -> GenGoMovetime [] w = "godm" -> GenGoDepthMovetime
            [] w = "goclock" -> GenGoClock [] w = "quit" -> GenQuit [] w = "eof" -> GenEof
 PickFor(k) == LET m == IF k >= MaxCmds THEN <<"quit", "eof">>
